@@ -8,7 +8,9 @@ CONSTANTS
   DeadlineSource = "private"
   MarkMode = "release"
   MaxW = 3
+  LookupMode = "fresh"
+  MaxConns = 1000
   Cases = {}
-INVARIANTS NoBytes NoEarlyClose KeepsReading MatchSound ConsumeExact FoundWhenComplete NeverDropsMatching MarkedUsed HighWater
+INVARIANTS NoBytes NoEarlyClose KeepsReading MatchSound ConsumeExact FoundWhenComplete NeverDropsMatching MarkedUsed TableSound HighWater
 POSTCONDITION Post
 CHECK_DEADLOCK FALSE
